@@ -1,6 +1,7 @@
 package main
 
 import (
+	"bytes"
 	"fmt"
 	"context"
 	"encoding/hex"
@@ -338,4 +339,45 @@ func (g *gatedTransport) Writev(bufs transport.Buffers) (int64, error) {
 	}
 	<-g.gate
 	return g.Transport.Writev(bufs)
+}
+
+// C11 (pipeline entry point): Channel.Write after Close has returned, on pipelines whose outbound handlers keep
+// messages (batching, pacing) instead of handing each one to the head within the same call: the call must fail.
+type keepHandler struct{ kept []netty.Message }
+
+func (k *keepHandler) HandleWrite(ctx netty.OutboundContext, m netty.Message) { k.kept = append(k.kept, m) }
+
+func runC11pw() {
+	for _, mode := range []string{"sync", "async", "async-bounded"} {
+		for _, cause := range []string{"nil", "e"} {
+			emit("#case c11pw-%s-%s", mode, cause)
+			pl := netty.NewPipeline()
+			tr := mock.NewTransport()
+			var ch netty.Channel
+			switch mode {
+			case "sync":
+				ch = netty.NewChannel()(1, context.Background(), pl, tr, goExec{})
+			case "async":
+				ch = netty.NewAsyncWriteChannel(8, true)(1, context.Background(), pl, tr, goExec{})
+			default:
+				ch = netty.NewAsyncWriteChannel(8, false)(1, context.Background(), pl, tr, goExec{})
+			}
+			pl.AddLast(&keepHandler{})
+			netty.NvAttach(pl, ch)
+			if cause == "nil" {
+				ch.Close(nil)
+			} else {
+				ch.Close(errC11)
+			}
+			nils := 0
+			for _, m := range []netty.Message{[]byte("x"), [][]byte{[]byte("y")}, bytes.NewBufferString("z"), strings.NewReader("r")} {
+				var err error
+				guard(func() { err = ch.Write(m) })
+				if err == nil {
+					nils++
+				}
+			}
+			emit("C11 pw %s %s nil=%d", mode, cause, nils)
+		}
+	}
 }
